@@ -30,19 +30,73 @@ Proof.
   unfold nsort. induction l as [|y r IH]; simpl; [tauto|]. rewrite ninsert_In, IH. intuition.
 Qed.
 
+(* one alias per module among the `import m as a` items *)
+Definition alias_unique (l : list item) : Prop :=
+  forall x y a b, In x l -> In y l -> i_obj x = None -> i_obj y = None -> i_mod x = i_mod y ->
+                  i_alias x = Some a -> i_alias y = Some b -> a = b.
+
+Lemma alias_unique_filter f l : alias_unique l -> alias_unique (filter f l).
+Proof.
+  intros H x y a b Hx Hy. apply filter_In in Hx as [Hx _]. apply filter_In in Hy as [Hy _]. now apply H.
+Qed.
+
 Lemma in_domain_item moved it :
   in_domain moved = true -> In it moved ->
-  String.eqb (i_mod it) "__future__" = false /\ is_rel (i_mod it) = false
-  /\ (i_obj it = None -> i_alias it = None).
+  String.eqb (i_mod it) "__future__" = false /\ is_rel (i_mod it) = false.
 Proof.
   unfold in_domain. rewrite forallb_forall. intros H Hin. specialize (H it Hin).
   apply andb_true_iff in H as [H H4]. apply andb_true_iff in H as [H H3]. apply andb_true_iff in H as [H1 _].
-  apply negb_true_iff in H1. apply negb_true_iff in H3. repeat split; try assumption.
-  intro Ho. rewrite Ho in H4. destruct (i_alias it); [discriminate | reflexivity].
+  apply negb_true_iff in H1. apply negb_true_iff in H3. split; assumption.
+Qed.
+
+Lemma in_domain_alias_unique moved : in_domain moved = true -> alias_unique moved.
+Proof.
+  unfold in_domain. rewrite forallb_forall. intros H x y a b Hx Hy Ox Oy Hm Ax Ay.
+  specialize (H x Hx). apply andb_true_iff in H as [_ H]. rewrite Ox, Ax in H.
+  rewrite forallb_forall in H. specialize (H y Hy). rewrite Oy, Ay in H.
+  apply orb_true_iff in H as [H | H].
+  - apply negb_true_iff in H. rewrite Hm, String.eqb_refl in H. discriminate.
+  - now apply String.eqb_eq in H.
+Qed.
+
+Lemma alias_set_same k a d : In (k, a) (alias_set k a d).
+Proof.
+  induction d as [|[k' a'] r IH]; simpl; [now left|].
+  destruct (String.eqb k k'); simpl; [now left | now right].
+Qed.
+
+Lemma alias_set_keep k a k' a' d :
+  In (k, a) d -> (k' = k -> a' = a) -> In (k, a) (alias_set k' a' d).
+Proof.
+  induction d as [|[k0 a0] r IH]; simpl; [intros []|].
+  intros [E | Hin] Hu.
+  - injection E as -> ->. destruct (String.eqb k' k) eqn:Q; simpl.
+    + apply String.eqb_eq in Q. subst k'. rewrite (Hu eq_refl). now left.
+    + now left.
+  - destruct (String.eqb k' k0); simpl; [now right | right; now apply IH].
+Qed.
+
+Lemma aliased_mods_has l md a :
+  alias_unique l -> In (Item md None (Some a)) l -> In (md, a) (aliased_mods l).
+Proof.
+  unfold aliased_mods. intros U Hin.
+  assert (G : forall l0 d, (forall y b, In y l0 -> i_obj y = None -> i_alias y = Some b -> i_mod y = md -> b = a) ->
+                           (In (md, a) d \/ In (Item md None (Some a)) l0) ->
+                           In (md, a) (fold_left (fun d it => match i_obj it, i_alias it with
+                                                              | None, Some a => alias_set (i_mod it) a d
+                                                              | _, _ => d end) l0 d)).
+  { induction l0 as [|y r IH]; intros d Hu [H | H]; simpl; try assumption; try destruct H.
+    - apply IH; [intros; eapply Hu; eauto; now right|]. left.
+      destruct (i_obj y) eqn:Oy; [assumption|]. destruct (i_alias y) eqn:Ay; [|assumption].
+      apply alias_set_keep; [assumption|]. intro E. eapply Hu; eauto. now left.
+    - subst y. simpl. apply IH; [intros; eapply Hu; eauto; now right|]. left. apply alias_set_same.
+    - apply IH; [intros; eapply Hu; eauto; now right|]. now right. }
+  apply G; [|now right].
+  intros y b Hy Oy Ay My. symmetry. eapply (U (Item md None (Some a)) y a b); eauto.
 Qed.
 
 Lemma render_has l it :
-  In it l -> is_rel (i_mod it) = false -> (i_obj it = None -> i_alias it = None) ->
+  In it l -> is_rel (i_mod it) = false -> alias_unique l ->
   In it (items_of (render l)).
 Proof.
   intros Hin Hrel Hal.
@@ -64,11 +118,15 @@ Proof.
     + simpl. rewrite Hrel. apply in_map_iff. exists (o, al). split; [reflexivity|].
       apply nsort_In. unfold from_names. apply in_flat_map.
       exists (Item md (Some o) al). split; [assumption|]. simpl. rewrite String.eqb_refl. now left.
-  - (* import md *)
-    rewrite (Hal eq_refl) in *. left. apply in_flat_map.
-    exists (IImport [(md, None)]). split; [| simpl; now left].
-    apply in_map_iff. exists md. split; [reflexivity|]. apply ssort_In. unfold plain_mods. apply in_flat_map.
-    exists (Item md None None). split; [assumption | simpl; now left].
+  - destruct al as [a|].
+    + (* import md as a *)
+      right. left. apply in_flat_map. exists (IImport [(md, Some a)]). split; [| simpl; now left].
+      apply in_map_iff. exists (md, a). split; [reflexivity|]. now apply aliased_mods_has.
+    + (* import md *)
+      left. apply in_flat_map.
+      exists (IImport [(md, None)]). split; [| simpl; now left].
+      apply in_map_iff. exists md. split; [reflexivity|]. apply ssort_In. unfold plain_mods. apply in_flat_map.
+      exists (Item md None None). split; [assumption | simpl; now left].
 Qed.
 
 (* ------------------------------------------------------------ the symbol mapping holds only items of its imports *)
@@ -130,13 +188,15 @@ Theorem confine_moved_under_tc moved applied it :
   in_domain moved = true -> In it moved ->
   In it (tc_items (confine_with moved applied)) /\ ~ In it (top_items (confine_with moved applied)).
 Proof.
-  intros Hd Hin. destruct (in_domain_item moved it Hd Hin) as [_ [Hrel Hal]]. split.
+  intros Hd Hin. destruct (in_domain_item moved it Hd Hin) as [_ Hrel].
+  pose proof (in_domain_alias_unique moved Hd) as Hal. split.
   - unfold confine_with. set (t := remove moved (add_tc applied)).
     destruct (memb it (already_confined t)) eqn:E.
     + apply tc_items_insert_block_keeps. apply already_confined_tc. now apply memb_In.
     + assert (L : In it (to_block moved t)).
       { unfold to_block. apply filter_In. split; [assumption | now rewrite E]. }
-      apply tc_items_insert_block; [exact L | now apply render_has].
+      apply tc_items_insert_block; [exact L |]. apply render_has; [exact L | exact Hrel |].
+      unfold to_block. now apply alias_unique_filter.
   - now apply confine_moved_not_toplevel.
 Qed.
 
